@@ -1,6 +1,7 @@
 """C04 — a banded matrix behaves like the dense matrix with the same band."""
 from .pdb import strip, walk, loc, ancestors
 from .terms import Ctx, num, show, lin_add, lin_sub, lin_scale
+from .common import is_zero_term
 from .common import (P, F, SIZE, GT, effects, callee_path, call_args, find_argmax, effective_guards, entry_guards, forwards_to,
                      ctor_summary, in_macro, OP_OF_TRAIT, single_expr_body, _resolve, is_abs_term, facts_x, subst_term, reachable_fns,
                      ordered_cmps_on_elements, NE)
@@ -217,8 +218,12 @@ def run(rep, pdb, tier):
         for a in ctx.assigns.get(mult[1], []) if mult[0] == "var" else []:
             if any(x is s.loops[1] for x in ancestors(a)):
                 mdef = ctx.term(a["r"])
-        okm = s.index == ("tup", k, lin_sub(lin_sub(i, k), num(1))) and mdef == ("op", "/", ("idx", AU, ("tup", i, num(0))), ("idx", AU, ("tup", k, num(0)))) and \
-            ri[1] == lin_add(k, num(1))
+        piv = ("idx", AU, ("tup", k, num(0)))
+        quot = ("op", "/", ("idx", AU, ("tup", i, num(0))), piv)
+        # the multiplier is the quotient, taken as zero when the pivot is zero (a column of zeros: nothing to eliminate)
+        guarded = mdef is not None and mdef[0] == "ite" and mdef[1][0] == "op" and mdef[1][1] in ("==", "!=") and {mdef[1][2], mdef[1][3]} == {piv, ("call", "traits::Zero::zero")} and \
+            ((mdef[1][1] == "==" and is_zero_term(mdef[2]) and mdef[3] == quot) or (mdef[1][1] == "!=" and is_zero_term(mdef[3]) and mdef[2] == quot))
+        okm = s.index == ("tup", k, lin_sub(lin_sub(i, k), num(1))) and (mdef == quot or guarded) and ri[1] == lin_add(k, num(1))
         rj = for_range(ctx, u.loops[2])
         j = rj[0]
         oku = u.index == ("tup", i, lin_add(j, num(-1))) and u.value == ("op", "-", ("idx", AU, ("tup", i, j)), ("op", "*", mult, ("idx", AU, ("tup", k, j)))) and rj[1] == num(1) and rj[2] == MM
@@ -226,6 +231,21 @@ def run(rep, pdb, tier):
         det = "multiplier=%s stored at al[(k,i-k-1)]; shifted row update=%s" % (show(mdef, ctx) if mdef else None, oku)
     rep.add("row-op-pair/decompose", "the multiplier au[(i,0)]/au[(k,0)] (pivot is the divisor) is stored at al[(k, i-k-1)] and used for the left-shifted row update over columns 1..mm; *d starts at one",
             okm and okd0, dec["body"], det, where=loc(dec["body"]))
+    # ---- a singular matrix has determinant 0, not 0/0: the pivot division is guarded
+    rule = ("every division in decompose (reachable from det) is dominated by a test that its divisor, the pivot au[(k,0)] (or the pivot magnitude found by the "
+            "search), differs from zero: a column of zeros gives multiplier 0 and det = 0, as for the dense matrix, not NaN")
+    from .c02 import nonzero_fact
+    from .common import facts_x
+    ndiv = 0
+    for n in walk(dec["body"]):
+        if n.get("k") == "Binary" and n.get("op") == "/" and n.get("fn") and not in_macro(n):
+            ndiv += 1
+            dvs = ctx.term(n["r"])
+            fs = facts_x(pdb, ctx, n)
+            g = nonzero_fact(fs, dvs) or nonzero_fact(fs, am.best)
+            rep.add("zero-pivot/decompose" if ndiv == 1 else "zero-pivot/decompose#%d" % ndiv, rule, g, n, "divisor %s: a `!= zero` test dominates=%s" % (show(dvs, ctx), g))
+    if ndiv == 0:
+        rep.missing("zero-pivot/decompose", rule, "no division found in decompose")
     # ---- initial left shift of the first m1 rows (l is an induction variable: l = m1 - i before its decrement)
     rule = ("for each of the first m1 rows i: entries j in (m1-i)..mm move to j-(m1-i), then exactly the m1-i vacated trailing slots (mm-(m1-i))..mm are zeroed "
             "(l starts at m1 and is decremented once per row, so l = m1 - i before and m1 - i - 1 after the decrement)")
